@@ -5,8 +5,8 @@ register("C17",
          "Universal theorems (every rooted ordered tree with unique identifiers): linearise (permutation, children first, root last); root paths; "
          "path_from_to is the unique simple tree path; distances from every centre equal path lengths; subtree/leaves/size queries; the TDVP update "
          "path is a permutation of the nodes, starts at the first deepest leaf and ends at a node of degree <= 1; init_cache_but_one creates exactly one "
-         "block per edge, directed toward the left-out node, inputs before the blocks that need them. Bounded only (kernel-evaluated on all 23714 trees "
-         "with <= 11 nodes): walking the update path crosses no edge more than twice. The model is tied to the code on every run by exact comparison "
+         "block per edge, directed toward the left-out node, inputs before the blocks that need them; walking the update path crosses no edge more than "
+         "twice (every proper subtree is one contiguous block of the path). The model is tied to the code on every run by exact comparison "
          "of lists and dict orders.",
          "Trusted: Coq kernel, vm_compute (bounded clause and correspondence files), harness; identifiers mapped to nat; node-dictionary order is an input "
-         "of get_leaves/nearest_neighbours; the edge-crossing clause is a finite statement, its inductive proof is open.")
+         "of get_leaves/nearest_neighbours.")
